@@ -166,7 +166,27 @@ def run(ctx):
                     continue
                 cases.append(ec.enforce_case([('p:x', ev.generic('a.' + attr, rhs))], {'by': 'name', 'name': 'p:x'}, {}, {'a': stop, 'roles': []},
                                              dflt=('opt', None), want='c14'))
+    # a rule whose whole text is one quoted word is not a check: it denies (directly, behind a reference, as
+    # an operand), it does not become something that cannot be called
+    for word in ('""', "''", "'1'", '"."', "'class'", '"a.b"', "'%(t)s'", '"\\"'):
+        for shape in ('self', 'alias', 'not_alias', 'or_operand', 'grouped'):
+            texts = {'self': {'p:x': word}, 'alias': {'p:x': 'rule:p:y', 'p:y': word}, 'not_alias': {'p:x': 'not rule:p:y', 'p:y': word},
+                     'or_operand': {'p:x': 'rule:p:y or role:r1', 'p:y': word}, 'grouped': {'p:x': '(' + word + ')'}}[shape]
+            trees = {'self': [('p:x', ev.F)], 'alias': [('p:x', ev.rule('p:y')), ('p:y', ev.F)], 'not_alias': [('p:x', ev.Not(ev.rule('p:y'))), ('p:y', ev.F)],
+                     'or_operand': [('p:x', ev.Or(ev.rule('p:y'), ev.role('r1'))), ('p:y', ev.F)], 'grouped': [('p:x', ev.F)]}[shape]
+            for doraise in (0, 1):
+                for route in ('rules_obj', 'main_file'):
+                    e = ev.make_enforcer(texts, ('opt', None), via=route)
+                    cases.append(ec.enforce_case(trees, {'by': 'name', 'name': 'p:x', 'doraise': doraise}, {'t': 'v'}, {'roles': ['r1'] if doraise else []},
+                                                 dflt=('opt', None), want='c14', enforcer=e, extra={'_texts': texts, '_via': route}))
     bad = ec.judge(ctx, cases, chunk=3000)       # (long hostile texts make big case files: small chunks)
+    # "returns a decision": with built-in checks only, what enforce returns is True or False - not None, not
+    # whatever an operand happened to leave behind
+    for c in cases:
+        if c['obs']['o'] == 'ret' and c.get('_raw_type') not in ('bool', None) and c not in bad:
+            d = ec.describe(c)
+            d['returned_type'] = c.get('_raw_type')
+            ctx.violation('returned-non-decision:' + str(c.get('_raw_type')), 'enforce returned a value that is neither True nor False for a rule made of built-in checks', d)
     for c in bad:
         o = c['obs']
         key = ('escaped:' + o['cls']) if o['o'] == 'raise' and o['cls'] not in (
